@@ -1,0 +1,23 @@
+//go:build verif
+
+package verifapi
+
+import "github.com/deepteams/webp/internal/lossy"
+
+// Event kinds passed to the scheduling hook.
+const (
+	SchedClaim    = 0
+	SchedProc     = 1
+	SchedSignal   = 2
+	SchedRecord   = 3
+	SchedSlowWait = 4
+)
+
+// SetSchedHook installs (or, with nil, removes) the row-pipeline scheduling hook.
+func SetSchedHook(f func(ev int, worker uintptr, y, x int)) {
+	if f == nil {
+		lossy.VerifSchedHook.Store(nil)
+		return
+	}
+	lossy.VerifSchedHook.Store(&f)
+}
